@@ -239,14 +239,16 @@ Proof. exact limits_window_example. Qed.
    [run_steps] are the accepted steps of the model's history with the checker's own log before each;
    [approve_log] is the log after an accepted approval. *)
 
-(* a pooled transfer leaves the pool at an approval only when the configured share of the account's custodians
+(* ([rotated lg t = false]: the account was not touched by an address rotation and no person voted for its
+   transfer under two addresses -- the checker names the clauses of such accounts ..._rotated / ..._alias)
+   a pooled transfer leaves the pool at an approval only when the configured share of the account's custodians
    is on record for it, the password (when in use) was confirmed with the password of the request, and the
    record holds every (custodian, account, transfer) at most once *)
 Theorem C17_release_at_approval :
   forall v, v_cust_only v = true -> v_lower v = true -> v_pwd v = true ->
   forall H minrew bals ops lg a s1 s2 f t hraw tx,
   In (lg, a, s1, s2, OApprove f t hraw) (run_steps v H minrew bals ops) ->
-  released s1 s2 t (to_lower hraw) = Some tx -> rotated lg t = false ->
+  released s1 s2 t (to_lower hraw) = Some tx -> rotated (approve_log lg s1 s2 f t hraw) t = false ->
   let lg1 := approve_log lg s1 s2 f t hraw in
   let T := getA s1 t in
   (guarded T = true -> 0 < n_cust T -> forall st, a_set T = Some st ->
